@@ -508,6 +508,9 @@ def apply_regime(module, regime, seed):
                         if "heights" in leaf:
                             sign = -sign * flip
                     p.scatter_(-1, idx, mag * sign)
+                    if "derivatives" in leaf and p.shape[-1] >= 2:
+                        # knot derivatives: a steep knot next to a flat one (the bin between them bends sharply)
+                        p.scatter_(-1, (idx + 1) % p.shape[-1], -mag * sign)
             elif regime == "bounded":  # |param| <= 2 (C19 "moderate magnitude")
                 if leaf in NONSINGULAR:
                     p.add_(torch.randn(p.shape, generator=g, dtype=p.dtype) * 0.2)
